@@ -8,6 +8,7 @@ package routing
 
 //@ func (s *StrictStrategy) Name
 //@   property C09
+//@   safety
 //@   ensures res == "strict"
 
 //@ func (s *StrictStrategy) GetRoutableEndpoints
@@ -29,6 +30,7 @@ package routing
 
 //@ func (s *OptimisticStrategy) Name
 //@   property C09
+//@   safety
 //@   ensures res == "optimistic"
 
 //@ func (s *OptimisticStrategy) GetRoutableEndpoints
@@ -50,6 +52,7 @@ package routing
 
 //@ func (s *DiscoveryStrategy) Name
 //@   property C09
+//@   safety
 //@   ensures res == "discovery"
 
 //@ func (s *DiscoveryStrategy) GetRoutableEndpoints
